@@ -185,6 +185,7 @@ impl Chan {
             }
             s.rd_wakers.push(cx.waker().clone());
             simcore::sig(0x15);
+            simcore::log(|| "  chan.read: empty -> park".to_string());
             return RdDecision::Park;
         }
         let mut k = s.q.len().min(cap);
@@ -193,6 +194,7 @@ impl Chan {
             simcore::fault("short-read");
         }
         simcore::sig(0x16 + ((k.min(255) as u64) << 8));
+        simcore::log(|| format!("  chan.read: {k} bytes"));
         RdDecision::Data(k)
     }
 
@@ -258,11 +260,21 @@ impl Chan {
             simcore::sig(0x24);
             return Poll::Ready(Ok(0));
         }
-        let used = s.q.len() + s.held.len();
+        let mut used = s.q.len() + s.held.len();
+        if s.cap.saturating_sub(used) == 0 && !s.held.is_empty() {
+            // a buffering transport whose buffer is full pushes it out by itself
+            let held = std::mem::take(&mut s.held);
+            s.q.extend(held);
+            for w in s.rd_wakers.drain(..) {
+                w.wake();
+            }
+            used = s.q.len();
+        }
         let room = s.cap.saturating_sub(used);
         if room == 0 {
             s.wr_wakers.push(cx.waker().clone());
             simcore::sig(0x25);
+            simcore::log(|| "  chan.write: full -> park".to_string());
             return Poll::Pending;
         }
         let mut k = total.min(room);
@@ -290,6 +302,7 @@ impl Chan {
             }
         }
         simcore::sig(0x26 + ((k.min(255) as u64) << 8));
+        simcore::log(|| format!("  chan.write: {k} of {total} bytes"));
         Poll::Ready(Ok(k))
     }
 
@@ -552,5 +565,14 @@ impl AsyncWriteAt for SimFile {
     async fn write_at<T: IoBuf>(&mut self, buf: T, pos: u64) -> BufResult<usize, T> {
         let res = poll_fn(|cx| self.poll_write_at(cx, buf.as_init(), pos)).await;
         BufResult(res, buf)
+    }
+}
+
+impl compio_io::util::Splittable for SimStream {
+    type ReadHalf = SimStream;
+    type WriteHalf = SimStream;
+
+    fn split(self) -> (SimStream, SimStream) {
+        (self.clone(), self)
     }
 }
